@@ -301,3 +301,68 @@ func SetMapOrder(reverse bool) {}
 func Repeats() int {
 	return 24
 }
+
+// witnessFile is one passing path of the engine: the inputs (model) and the cover points seen.
+type witnessFile struct {
+	Harness string            `json:"harness"`
+	Model   map[string]string `json:"model"`
+	Covers  []string          `json:"covers"`
+}
+
+// WitnessMain replays the engine's passing-path witnesses ($VERIF_WITNESSES: a JSON list)
+// natively: the real code on the same inputs must satisfy the assumptions, fail no assertion,
+// not panic and reach the same cover points. Returns one report line per witness.
+func WitnessMain(harnesses map[string]func()) (agree, differ int, lines []string) {
+	p := os.Getenv("VERIF_WITNESSES")
+	bz, err := os.ReadFile(p)
+	if err != nil {
+		return 0, 1, []string{"cannot read witnesses: " + err.Error()}
+	}
+	var ws []witnessFile
+	if err := json.Unmarshal(bz, &ws); err != nil {
+		return 0, 1, []string{"cannot parse witnesses: " + err.Error()}
+	}
+	for k, w := range ws {
+		fn, have := harnesses[w.Harness]
+		if !have {
+			continue
+		}
+		replay = &replayFile{Harness: w.Harness, Kind: "witness", Model: w.Model}
+		fails, panicked, msg, af := RunNative(fn)
+		got := map[string]bool{}
+		for _, c := range Covered {
+			got[c] = true
+		}
+		want := map[string]bool{}
+		for _, c := range w.Covers {
+			want[c] = true
+		}
+		why := ""
+		switch {
+		case af:
+			why = "assumption does not hold natively"
+		case panicked:
+			why = "native panic: " + msg
+		case len(fails) > 0:
+			why = fmt.Sprintf("native assertion failures: %v", fails)
+		default:
+			for c := range want {
+				if !got[c] {
+					why = "cover point not reached natively: " + c
+				}
+			}
+			for c := range got {
+				if !want[c] {
+					why = "cover point reached only natively: " + c
+				}
+			}
+		}
+		if why == "" {
+			agree++
+		} else {
+			differ++
+			lines = append(lines, fmt.Sprintf("witness %d of %s: %s", k, w.Harness, why))
+		}
+	}
+	return agree, differ, lines
+}
